@@ -243,7 +243,8 @@ class AddInitializersToInputsPass(ir.passes.InPlacePass):
 
     def call(self, model: ir.Model) -> ir.passes.PassResult:
         count = 0
-        for graph in model.graphs():
+        # Only the main graph: a subgraph (If/Loop/Scan body) must keep the inputs its operator defines
+        for graph in (model.graph,):
             inputs_set = set(graph.inputs)
             for initializer in graph.initializers.values():
                 if initializer not in inputs_set:
